@@ -35,12 +35,24 @@ class TokFault(Exception):
         self.kind = kind
 
 
+class TokInterrupt(KeyboardInterrupt):
+    """The same injected fault as a BaseException (Ctrl-C during a batch): it must be treated no differently."""
+
+    def __init__(self, kind):
+        super().__init__(kind)
+        self.kind = kind
+
+
+def raise_fault(kind):
+    raise (TokInterrupt(kind) if G.get("flavour") == "interrupt" else TokFault(kind))
+
+
 def _tok_sample_batch(self, batch_size, search_space, existing_points, existing_losses):
     k = self.tok_calls
     self.tok_calls += 1
     self.seen.append((len(existing_points), len(existing_losses), self.random_state))
     if G["fault"] == ("sampler", self.tok_uid, k):
-        raise TokFault("sampler")
+        raise_fault("sampler")
     n = len(existing_points)
     rows = self.tok_rows if self.tok_rows is not None else batch_size
     return np.array([[float((((self.tok_uid * 100 + k) * 1000 + n) * 10) + r)] for r in range(rows)], dtype=float).reshape(rows, 1)
@@ -99,7 +111,7 @@ def tok_model(theta, N, seed):  # noqa: N803
     k = G["model_calls"]
     G["model_calls"] += 1
     if G["fault"] == ("model", k):
-        raise TokFault("model")
+        raise_fault("model")
     out = np.zeros((N, 1))
     out[0, 0] = theta[0]
     out[1, 0] = seed
@@ -115,7 +127,7 @@ class TokLoss:
         k = G["loss_calls"]
         G["loss_calls"] += 1
         if G["fault"] == ("loss", k):
-            raise TokFault("loss")
+            raise_fault("loss")
         toks = [int(x) for x in sim[:, 0, 0]]
         seeds = [int(x) for x in sim[:, 1, 0]]
         if len(set(toks)) != 1:
@@ -151,7 +163,7 @@ def make_agent(script):
 def exn_code(e):
     if e is None:
         return 0
-    if isinstance(e, TokFault):
+    if isinstance(e, (TokFault, TokInterrupt)):
         return {"model": 1, "loss": 2, "sampler": 3}[e.kind]
     if isinstance(e, ValueError):
         return 4
@@ -205,7 +217,8 @@ def run_case(case, keep=False):
     """Execute the case on the real Calibrator; returns observations (ctor outcome + a view per op)."""
     from black_it.calibrator import Calibrator
 
-    G.update(fault=tuple(case["fault"]) if case.get("fault") else None, model_calls=0, loss_calls=0)
+    G.update(fault=tuple(case["fault"]) if case.get("fault") else None, model_calls=0, loss_calls=0,
+             flavour=case.get("fault_flavour"))
     folder = SCRATCH / f"{os.getpid()}" / f"case{case.get('idx', 0)}"
     if folder.exists():
         shutil.rmtree(folder)
@@ -268,6 +281,8 @@ def run_case(case, keep=False):
                     all_objs += new
                     cal.set_scheduler(RoundRobinScheduler(new))
         except Exception as e:  # noqa: BLE001
+            err = e
+        except TokInterrupt as e:
             err = e
         v = core_view(cal)
         v["exn"] = exn_code(err)
